@@ -183,7 +183,7 @@ PROPERTIES = {
                          "Reaction.__eq__ between abstract reactions is an uninterpreted reflexive relation in the removal unit (its properties are proved in identity.py)",
                          "engine rule: set(sp for r in L for sp in r.reactants) == RSET(L, |L|) (definitional: RSET is the union over the list of the members' reactant classes); list.pop(k) modelled as a z3 lambda array (elements after k move down)"],
         "contract_files": ["netinv.py", "identity.py"],
-        "explanation": "mixed. PROVED (pyvc): Network._add_reaction preserves the representation invariant (_reactants/_products are the unions over the held list, defined recursively; frame lemma by induction), appends exactly to the held or to the skipped list according to the allowed set, and returns exactly the new classes (membership tests on the skipped list are modelled, so a conditional append fails the postcondition); the required-species setter stores exactly the named species whatever the network holds; find_source_sink returns the two set differences and changes nothing. PROVED (pyvc, held lists of any length): Network.remove_reaction with an integer position of either sign (out of range raises IndexError and changes nothing; otherwise the held list is the old one without that position, order kept) and with a Reaction instance (filter comprehension executed as a loop under contract with ghost source positions: what remains is exactly the sub-sequence of held reactions that do not compare equal to the argument, in order, each once), any other argument type is refused with TypeError and nothing changed; in every case the skipped list is untouched and both caches are the unions over the reactions that are LEFT (the nested generator `sp for r in list for sp in r.reactants` is the recursive spec function RSET by definition). Assigns clauses (AST scan): remove_reaction / _add_reaction / find_duplicate_reaction / find_source_sink / where_reaction / where_species write only the attributes of their clause (in particular never the modifier tables) and call no unlisted method of self. BOUNDED: removal with list-valued arguments (index lists, reaction lists), allowed/required setters, de-duplication, re-indexing and whole histories - seeded random edit histories (add/remove by index, list, instance/allowed/required/dedup/reindex) checked after every step against a reference model recomputed from the surviving reactions, plus setter-vs-constructor agreement. Removal by index list / reaction list and the allowed-species setter are not under contract (membership tests over a second symbolic list); the bounded parts are not counted as proved.",
+        "explanation": "mixed. PROVED (pyvc): Network._add_reaction preserves the representation invariant (_reactants/_products are the unions over the held list, defined recursively; frame lemma by induction), appends exactly to the held or to the skipped list according to the allowed set, and returns exactly the new classes (membership tests on the skipped list are modelled, so a conditional append fails the postcondition); the required-species setter stores exactly the named species whatever the network holds; find_source_sink returns the two set differences and changes nothing. PROVED (pyvc, held lists of any length): Network.remove_reaction with an integer position of either sign (out of range raises IndexError and changes nothing; otherwise the held list is the old one without that position, order kept) with a Reaction instance, with a list of integer positions of any length (repeats, any order) and with a list of Reaction instances of any length (the three filter comprehensions executed as loops under contract with ghost source positions: what remains is exactly the sub-sequence of held reactions that are not named by the argument - do not compare equal to it / sit at no listed position / compare equal to no listed reaction -, in order, each once; an empty list names nothing), any other argument type is refused with TypeError and nothing changed; in every case the skipped list is untouched and both caches are the unions over the reactions that are LEFT (the nested generator `sp for r in list for sp in r.reactants` is the recursive spec function RSET by definition). Assigns clauses (AST scan): remove_reaction / _add_reaction / find_duplicate_reaction / find_source_sink / where_reaction / where_species write only the attributes of their clause (in particular never the modifier tables) and call no unlisted method of self. BOUNDED: allowed/required setters, de-duplication, re-indexing and whole histories - seeded random edit histories (add/remove by index, list, instance/allowed/required/dedup/reindex) checked after every step against a reference model recomputed from the surviving reactions, plus setter-vs-constructor agreement. The allowed-species setter (re-filtering held and skipped reactions) is not under contract; the bounded parts are not counted as proved.",
     },
     "C15": {
         "level": "other",
